@@ -145,10 +145,6 @@ Lemma g_from_pre : map nd (map fst (pre (dup_fuel h0) h0 None b)) = g.
 Proof. rewrite <- (ds_pre _ _ _ _ _ _ DS). rewrite !map_map. rewrite <- (map_id g) at 2.
   apply map_ext_in. intros n Hn. unfold tp; simpl. now apply nd_t. Qed.
 
-Lemma pre_in_g f par t x : fits f h0 t = true -> fits (dup_fuel h0) h0 b = true ->
-  In t (map fst (pre (dup_fuel h0) h0 None b)) -> In x (map fst (pre f h0 par t)) -> In x (map fst (pre (dup_fuel h0) h0 None b)).
-Proof. Abort.
-
 (* any heap in which the placeholders still own the lists made by dup *)
 Definition ph_tree (h : heap) : Prop :=
   forall n, In n g -> exists rp, getT h (n_p n) = Some rp /\ lst_of h (t_children rp) = map (ph_if_exists g) (fkids h0 (n_t n)).
